@@ -207,7 +207,11 @@ def run(ctx):
             pv = fn_.get("params")
             others = [(n, v) for n, v in fn_.items() if n != "params"]
             c1 = pv is not None and T.contains(pv, lambda x: T.is_call(x, r"ExactSizeIterator::len$") and T.contains(x, lambda y: T.is_param(y, 3)))
-            c2 = all(T.is_field(v, n) and T.is_call(v[1], r"Default>::default$|Default::default$") for n, v in others) and len(others) >= 2
+            def fresh(n, v):
+                # `..Default::default()`, or the empty value spelled out
+                return (T.is_field(v, n) and T.is_call(v[1], r"Default>::default$|Default::default$")) or \
+                    T.is_call(v, r"(HashMap::<K, V>|HashMap::<K, V, S>|Vec::<T>|String)::new$|Default>::default$|Default::default$|::with_capacity$")
+            c2 = all(fresh(n, v) for n, v in others) and len(others) >= 2
             ok = c1 and c2
             why = ("params <- %s; " % term_str(pv)) + ", ".join("%s <- %s" % (n, term_str(v)) for n, v in others)
         ctx.ob("C10.fresh-on-prepare", ok, "re-prepare must start from a fresh state: " + why, fn=b.path, construct="insert-value", where=b.where(bb),
